@@ -326,6 +326,28 @@ def run_sets(desc, prop, selector):
                 pp = A.PathPat(False, segs, False, 1)
                 for cfg in ({}, {'dot': True}, {'globstar': True, 'matchbase': True}):
                     lang.eval_path(pp, cfg, paths, out, armed, prop, selector(cfg), entry=idx % 3, stream='sets')
+    if s == 0:
+        # what a separator is belongs to each call: the same slash-less MATCHBASE patterns asked in turn under POSIX and under Windows
+        # rules, in both orders, with explicit expectations (a backslash is a separator only under Windows rules)
+        table = [('*.py', 'src\\pkg\\mod.py', True, True), ('mod.py', 'src\\pkg\\mod.py', True, False), ('*.py', 'src/pkg/mod.py', True, True), ('b.txt', 'a\\b.txt', True, False),
+                 ('b.txt', 'a/b.txt', True, True), ('?', 'x\\y', True, False), ('[ab]', 'q/a', True, True), ('a*', 'd\\ab', True, False),
+                 ('mod.py', 'src\\pkg/mod.py', True, True), ('b', 'a\\b', True, False), ('*', 'a\\b', True, True)]
+        from ..util import G as _G
+        for order in ((_G.FORCEUNIX, _G.FORCEWIN), (_G.FORCEWIN, _G.FORCEUNIX)):
+            util.clear_caches()
+            for pat, name, want_win, want_unix in table:
+                for plat in order + order:
+                    for extra in (0, _G.GLOBSTAR, _G.DOTGLOB):
+                        got = bool(_G.globmatch(name, pat, flags=_G.MATCHBASE | plat | extra))
+                        want = want_win if plat == _G.FORCEWIN else want_unix
+                        out.evaluations += 1
+                        if got != want:
+                            out.violation({'mode': 'gl', 'stream': 'both-styles', 'pattern': pat, 'name': name, 'cfg': {'matchbase': True},
+                                           'platform': 'FORCEWIN' if plat == _G.FORCEWIN else 'FORCEUNIX', 'first_asked_under': 'FORCEWIN' if order[0] == _G.FORCEWIN else 'FORCEUNIX',
+                                           'flags': _G.MATCHBASE | plat | extra, 'impl': got, 'verdict': R.MUST if want else R.MUSTNOT, 'raw': True,
+                                           'problem': 'a slash-less MATCHBASE pattern asked under both platform conventions in one process'},
+                                          bucket=('both-styles', pat, name))
+            out.nontrivial(('both-styles', order[0]))
     out.sample({'stream': 'sets', 'pattern': 'a[[:punct:]]b', 'paths': paths[:6]})
     return out
 
@@ -496,6 +518,14 @@ def run_textinv(desc):
 
 
 def replay(case):
+    if case.get('stream') == 'both-styles':
+        util.clear_caches()
+        first = G.FORCEWIN if case['first_asked_under'] == 'FORCEWIN' else G.FORCEUNIX
+        other = G.FORCEUNIX if first == G.FORCEWIN else G.FORCEWIN
+        for plat in (first, other, first, other):
+            G.globmatch(case['name'], case['pattern'], flags=(case['flags'] & ~(G.FORCEWIN | G.FORCEUNIX)) | plat)
+        got = bool(G.globmatch(case['name'], case['pattern'], flags=case['flags']))
+        return got == (case['verdict'] == R.MUST), {'impl': got}
     if case.get('mode') == 'textinv':
         fl = G.EXTGLOB | (G.DOTGLOB if 'DOTGLOB' in case['flags'] else 0)
         got = G.globmatch(case['name'], case['pattern'], flags=fl)
@@ -519,6 +549,6 @@ def replay(case):
 
 
 def shrink(case):
-    if case.get('mode') in ('textinv', 'real', 'unclosed'):
+    if case.get('mode') in ('textinv', 'real', 'unclosed') or case.get('stream') == 'both-styles':
         return case
     return lang.shrink_case(case)
